@@ -1,6 +1,11 @@
 """
-Fake UDP socket and virtual clock for driving the real vinegar.tftp.server._TftpReadRequest
-without source hooks: `socket` and `time` in the module's namespace are replaced in this process.
+Fake UDP socket and virtual clock for driving the real transfers of vinegar.tftp.server without source hooks.
+The fakes are put into the module's namespace by SCANNING it for the real objects (the `socket` module, the
+`socket.socket` class, `socket.timeout`, the `time` module, `time.monotonic`, the `threading` module, `threading.Thread`,
+any logging.Logger), so `import socket` and `from socket import socket, timeout` are the same to the harness.  A transfer is
+started through the private class `_TftpReadRequest` when it exists with the signature this harness knows (that path can
+use configurations outside the public constructor's ranges), otherwise through the PUBLIC path: a real
+`TftpServer(...).start()` whose request socket is a fake that delivers one read request.
 
 Time unit: ticks of 1/1024 s (exact in binary floating point, so the code's float arithmetic on
 deadlines is exact).  The clock moves only inside recvfrom: to the arrival time of a delivered
@@ -10,9 +15,13 @@ of the script is delivered iff its time stamp is before now+timeout, otherwise t
 the socket timeout and socket.timeout is raised (the event stays queued).
 """
 import errno
+import inspect
+import os
 import io
 import logging
 import socket as real_socket
+import threading as real_threading
+import time as real_time
 import types
 
 import common  # noqa: F401  (sets sys.path to the repo)
@@ -74,7 +83,18 @@ class FakeSock:
         return self
 
     def __exit__(self, *a):
-        self.log.append(("close_sock",))
+        self.close()
+
+    def close(self):
+        if not getattr(self, "_closed", False):
+            self._closed = True
+            self.log.append(("close_sock",))
+
+    def bind(self, addr):
+        pass
+
+    def getsockname(self):
+        return SRV
 
     def settimeout(self, t):
         self.to = t
@@ -112,18 +132,152 @@ class FakeSock:
         raise self.timeout_class("timed out")
 
 
+class DriverUnavailable(Exception):
+    """neither the private class (with the known signature) nor the public path can run this configuration"""
+
+
+_PRIVATE_PARAMS = ["self", "filename", "transfer_mode", "options", "client_address", "server_address",
+                   "handler_function", "handler_context", "default_timeout", "max_timeout", "max_retries",
+                   "max_block_size", "block_counter_wrap_value"]
+
+
+def private_class():
+    if os.environ.get("VERIF_TFTP_PUBLIC_PATH") == "1":      # self-test of the public path on the unchanged tree
+        return None
+    cls = getattr(S, "_TftpReadRequest", None)
+    if cls is None:
+        return None
+    try:
+        params = list(inspect.signature(cls.__init__).parameters)
+    except (TypeError, ValueError):
+        return None
+    return cls if params == _PRIVATE_PARAMS else None
+
+
+def public_domain(default_timeout, max_timeout, max_retries, max_block_size, wrap):
+    """the configurations the public constructor hands on unchanged (its documented ranges)"""
+    return (1 <= max_timeout <= 255 and 1 <= default_timeout <= max_timeout and max_retries >= 1
+            and 512 <= max_block_size <= 65464 and (wrap is None or (type(wrap) is int and wrap in (0, 1))))
+
+
+def can_drive(default_timeout, max_timeout, max_retries, max_block_size, wrap):
+    return private_class() is not None or public_domain(default_timeout, max_timeout, max_retries, max_block_size, wrap)
+
+
+def patch_module(mod, clock, make_socket, timeout_class=None, threads=None):
+    """put the fakes into `mod`'s namespace wherever the real objects are; returns (undo, loggers).
+    threads: a list that receives every threading.Thread the module creates (to join them without private names)"""
+    sock_shim = types.SimpleNamespace(**{k: getattr(real_socket, k) for k in dir(real_socket) if not k.startswith("__")})
+    sock_shim.socket = make_socket
+    sock_shim.timeout = timeout_class or real_socket.timeout
+    time_shim = types.SimpleNamespace(**{k: getattr(real_time, k) for k in dir(real_time) if not k.startswith("__")})
+    time_shim.monotonic = lambda: clock[0]
+
+    class RecThread(real_threading.Thread):
+        def __init__(self, *a, **k):
+            super().__init__(*a, **k)
+            if threads is not None:
+                threads.append(self)
+    thr_shim = types.SimpleNamespace(**{k: getattr(real_threading, k) for k in dir(real_threading) if not k.startswith("__")})
+    thr_shim.Thread = RecThread
+    saved = {}
+    for name, val in list(vars(mod).items()):
+        if val is real_socket:
+            new = sock_shim
+        elif val is real_socket.socket:
+            new = make_socket
+        elif val is real_socket.timeout and name not in ("TimeoutError",):
+            new = sock_shim.timeout
+        elif val is real_time:
+            new = time_shim
+        elif val is real_time.monotonic:
+            new = time_shim.monotonic
+        elif val is real_threading:
+            new = thr_shim
+        elif val is real_threading.Thread:
+            new = RecThread
+        else:
+            continue
+        saved[name] = val
+        setattr(mod, name, new)
+    loggers = [v for v in vars(mod).values() if isinstance(v, logging.Logger)]
+
+    def undo():
+        for name, val in saved.items():
+            setattr(mod, name, val)
+    return undo, loggers
+
+
+class FakeRequestSocket:
+    """the request socket of a real TftpServer on the public path: delivers one read request from CLI, then nothing"""
+    def __init__(self, datagram, log, timeout_class):
+        self.datagram = datagram
+        self.log = log
+        self.timeout_class = timeout_class
+        self.delivered = False
+        self.closed = real_threading.Event()
+
+    def __enter__(self):
+        return self
+
+    def __exit__(self, *a):
+        self.close()
+
+    def close(self):
+        self.closed.set()
+
+    def setsockopt(self, *a):
+        pass
+
+    def bind(self, addr):
+        pass
+
+    def getsockname(self):
+        return SRV
+
+    def settimeout(self, t):
+        pass
+
+    def recvfrom(self, n):
+        if not self.delivered:
+            self.delivered = True
+            return self.datagram[:n], CLI
+        self.closed.wait(0.02)            # real time; the virtual clock belongs to the transfer
+        raise self.timeout_class("timed out")
+
+    def recvmsg(self, n, ancsize=0, flags=0):
+        data, addr = self.recvfrom(n)
+        return data, [], 0, addr
+
+    def sendto(self, data, addr):
+        self.log.append(("request_port_send", addr, bytes(data)))
+
+
+def _join(t, log):
+    end = real_time.monotonic() + 5
+    while True:
+        try:
+            t.join(60)
+            break
+        except RuntimeError:              # created, not yet started
+            if real_time.monotonic() > end:
+                return
+            real_time.sleep(0.0005)
+    if t.is_alive():
+        log.append(("hang",))
+
+
 def run_transfer(script, handler, options, mode="octet", default_timeout=2, max_timeout=30,
                  max_retries=1, max_block_size=65464, wrap=0, filename="f", context=None, shared_log=None, proc=0,
                  sock_class=None):
     """
-    Run one real _TftpReadRequest to completion under the fake socket.
+    Run one real transfer to completion under the fake socket.
     script: list of (t_ticks, addr, datagram).  handler(filename, client, server, context) -> file object.
     Returns the event log: ("send", t, addr, data) | ("recv", ...) | ("timeout", t) | ("close_sock",) |
     ("logexc", class)
     """
     clock = [0.0]
     log = shared_log if shared_log is not None else []
-    shim = types.SimpleNamespace(**{k: getattr(real_socket, k) for k in dir(real_socket) if not k.startswith("__")})
 
     class LoggedTimeout(real_socket.timeout):
         """socket.timeout as the server module sees it: when the server raises it itself (no time left in a
@@ -134,29 +288,64 @@ def run_transfer(script, handler, options, mode="octet", default_timeout=2, max_
             if not a:
                 log.append(("timeout", int(round(clock[0] * TICK))))
 
-    def mk_sock(**k):
+    cls = private_class()
+    if cls is None and not public_domain(default_timeout, max_timeout, max_retries, max_block_size, wrap):
+        raise DriverUnavailable("the private transfer class is not available with the known signature and the public "
+                                "constructor would change this configuration")
+    request_sockets = []
+
+    def mk_sock(*a, **k):
+        if cls is None and not request_sockets:
+            rs = FakeRequestSocket(rrq, log, LoggedTimeout)
+            request_sockets.append(rs)
+            return rs
         fs = (sock_class or FakeSock)(list(script), clock, log, proc)
         fs.timeout_class = LoggedTimeout
         return fs
-    shim.timeout = LoggedTimeout
-    shim.socket = mk_sock
-    old = (S.socket, S.time)
-    S.socket = shim
-    S.time = types.SimpleNamespace(monotonic=lambda: clock[0])
+    threads = []
+    undo, loggers = patch_module(S, clock, mk_sock, LoggedTimeout, threads)
     h = _Log(log)
-    S.logger.addHandler(h)
-    old_level = S.logger.level
-    S.logger.setLevel(logging.INFO)
-    S.logger.propagate = False
+    saved_loggers = [(lg, lg.level, lg.propagate) for lg in loggers]
+    for lg in loggers:
+        lg.addHandler(h)
+        lg.setLevel(logging.INFO)
+        lg.propagate = False
     try:
-        tm = {"octet": TransferMode.OCTET, "netascii": TransferMode.NETASCII}[mode]
-        r = S._TftpReadRequest(filename, tm, dict(options), CLI, SRV, handler, context,
-                               default_timeout, max_timeout, max_retries, max_block_size, wrap)
-        r._thread.join(60)
-        if r._thread.is_alive():
-            log.append(("hang",))
+        if cls is not None:
+            tm = {"octet": TransferMode.OCTET, "netascii": TransferMode.NETASCII}[mode]
+            cls(filename, tm, dict(options), CLI, SRV, handler, context,
+                default_timeout, max_timeout, max_retries, max_block_size, wrap)
+            for t in list(threads):
+                _join(t, log)
+        else:
+            rrq = (b"\x00\x01" + filename.encode("latin-1") + b"\x00" + mode.encode("ascii") + b"\x00"
+                   + b"".join(str(k).encode("latin-1") + b"\x00" + str(v).encode("latin-1") + b"\x00"
+                              for k, v in dict(options).items()))
+
+            class _H(S.TftpRequestHandler):
+                def can_handle(self, fn, ctx):
+                    return True
+
+                def handle(self, fn, client_address, server_address, ctx):
+                    return handler(fn, client_address, server_address, context)
+            srv = S.TftpServer([_H()], "::1", 69, default_timeout=default_timeout, max_timeout=max_timeout,
+                               max_retries=max_retries, max_block_size=max_block_size, block_counter_wrap_value=wrap)
+            srv.start()
+            try:
+                deadline = real_time.monotonic() + 10
+                # the serve loop takes the request and starts the transfer thread (or answers on the request port)
+                while real_time.monotonic() < deadline:
+                    if len(threads) >= 2 or any(e[0] == "request_port_send" for e in log):
+                        break
+                    real_time.sleep(0.001)
+                for t in list(threads)[1:]:
+                    _join(t, log)
+            finally:
+                srv.stop()
     finally:
-        S.socket, S.time = old
-        S.logger.removeHandler(h)
-        S.logger.setLevel(old_level)
+        undo()
+        for lg, lvl, prop in saved_loggers:
+            lg.removeHandler(h)
+            lg.setLevel(lvl)
+            lg.propagate = prop
     return log
